@@ -320,6 +320,24 @@ func writeEvidence(path, prop, tier string, seed int, cov map[string]interface{}
 	os.WriteFile(path, b, 0644)
 }
 
+// ensuresClauseOf: "<fn>#ensures:<clause>#<return ordinal>" -> "<fn>#ensures:<clause>" ("" for other kinds).
+func ensuresClauseOf(name string) string {
+	i := strings.Index(name, "#ensures:")
+	j := strings.LastIndex(name, "#")
+	if i < 0 || j <= i {
+		return ""
+	}
+	for _, c := range name[j+1:] {
+		if c < '0' || c > '9' {
+			return ""
+		}
+	}
+	if j+1 == len(name) {
+		return ""
+	}
+	return name[:j]
+}
+
 type baselineFile struct {
 	Property    string   `json:"property"`
 	Obligations []string `json:"obligations"`
@@ -329,6 +347,7 @@ func (cr *checkRun) report(verif, evPath string, seed int, t0 time.Time, writeBa
 	e := cr.e
 	basePath := filepath.Join(verif, "baseline", cr.prop+"."+cr.tier+".json")
 	base := map[string]bool{}
+	clauseBase := map[string]bool{}
 	haveBase := false
 	if b, err := os.ReadFile(basePath); err == nil {
 		var bf baselineFile
@@ -336,6 +355,9 @@ func (cr *checkRun) report(verif, evPath string, seed int, t0 time.Time, writeBa
 			haveBase = true
 			for _, n := range bf.Obligations {
 				base[n] = true
+				if c := ensuresClauseOf(n); c != "" {
+					clauseBase[c] = true
+				}
 			}
 		}
 	}
@@ -364,6 +386,12 @@ func (cr *checkRun) report(verif, evPath string, seed int, t0 time.Time, writeBa
 			fmt.Printf("  FAILED %s: %s (%s) %s %s\n", o.Name, o.Status, o.Solver, o.Pos, truncate(o.Detail+" "+o.Model, 1500))
 		}
 		inBase := base[o.Name]
+		newReturn := false
+		if c := ensuresClauseOf(o.Name); !inBase && c != "" && clauseBase[c] {
+			// the same postcondition clause was discharged at every return of the unchanged
+			// function; this instance belongs to a return that did not exist there
+			inBase, newReturn = true, true
+		}
 		if !relevantTo(o, cr.prop) && known.match(cr.prop, o.Name) == nil {
 			// an obligation that belongs to other properties of the same function: their checks
 			// report it; it is not an alarm for this property
@@ -374,7 +402,11 @@ func (cr *checkRun) report(verif, evPath string, seed int, t0 time.Time, writeBa
 		case o.Status == "refuted":
 			viols = append(viols, violation{name: o.Name, reason: "refuted by " + o.Solver, detail: o.Model})
 		case inBase || !haveBase:
-			viols = append(viols, violation{name: o.Name, reason: fmt.Sprintf("not discharged (%s); it was discharged on the unchanged tree", o.Status), detail: o.Detail + "\n" + o.Model})
+			why := "it was discharged on the unchanged tree"
+			if newReturn {
+				why = "this postcondition was discharged at every return of the function on the unchanged tree; this return is new"
+			}
+			viols = append(viols, violation{name: o.Name, reason: fmt.Sprintf("not discharged (%s); %s", o.Status, why), detail: o.Detail + "\n" + o.Model})
 		default:
 			if known.match(cr.prop, o.Name) != nil {
 				// a recorded finding stays a finding whether the solver refutes the obligation or merely fails to prove it
